@@ -690,3 +690,274 @@ def pairing(rep, prog, rule, floor=150):
                     nmax - 1, len(rows), "column(s)" if vertical else "row/component combination(s)"))
     rep.floor(rule, "multiplies in x86 convolution kernels", n, floor)
     rep.note("%s: %d of %d multiply sites are followed to their sources" % (rule, n - und, n))
+
+
+# ---------------------------------------------------------------------------------------------
+# from the accumulators to the stored pixel
+
+E = frozenset()
+
+
+class TagFlow:
+    """which (source row, component) each byte of a value was accumulated from"""
+
+    def __init__(self, fn, sym, site_tags):
+        self.fn, self.sym, self.site_tags = fn, sym, site_tags
+        self.busy = set()
+        self.memo = {}
+
+    def vec(self, e, depth=0, at=None):
+        if depth > 120 or not isinstance(e, tuple) or not e:
+            return "?"
+        k = e[0]
+        if k == "cast":
+            v = self.vec(e[2], depth + 1, at)
+            if isinstance(v, list) and e[1] == "IntToInt" and len(e) > 3:
+                n = {"i8": 1, "u8": 1, "i16": 2, "u16": 2, "i32": 4, "u32": 4, "i64": 8, "u64": 8}.get(e[3])
+                if n and len(v) > n:
+                    return v[:n]
+            return v
+        if k == "ovf":
+            return self.vec(e[1], depth + 1, at)
+        if k == "const":
+            return [E] * 4
+        if k == "local":
+            if e in self.busy:
+                return None
+            if (e, at) in self.memo:
+                return self.memo[(e, at)]
+            self.busy.add(e)
+            try:
+                out = None
+                defs = self.sym.defs.get(e[1], [])
+                if at is not None and self.sym._rd_eligible(e[1]):
+                    ks = [k_ for k_ in sorted(self.sym.reaching(e[1], at)) if k_ >= 0]
+                    defs = [defs[k_] for k_ in ks]
+                for (bb, j, rv, whole) in defs:
+                    if not whole:
+                        return "?"
+                    v = self.vec(self.sym.rvalue(rv, bb, (bb, j)), depth + 1, (bb, j))
+                    if v is None:
+                        continue
+                    if v == "?":
+                        return "?"
+                    if out is None:
+                        out = list(v)
+                    elif len(out) == len(v):
+                        out = [a | b for a, b in zip(out, v)]
+                    else:
+                        return "?"
+                if not self.busy - {e}:
+                    self.memo[(e, at)] = out
+                return out
+            finally:
+                self.busy.discard(e)
+        if k == "bin":
+            a, b = self.vec(e[2], depth + 1, at), self.vec(e[3], depth + 1, at)
+            c = strip(e[3])
+            if e[1] == "BitAnd" and isinstance(a, list) and c[0] == "const" and c[1] == 0xffffffff:
+                return a[:4]
+            if e[1] == "Shr" and isinstance(a, list) and c[0] == "const" and c[1] == 32 and len(a) >= 8:
+                return a[4:8]
+            if e[1] in ("Add", "Sub") and isinstance(a, list) and isinstance(b, list):
+                u = frozenset().union(*a, *b)
+                return [u] * max(len(a), len(b))
+            return "?"
+        if k == "agg" and e[1] == "array":
+            out = []
+            for o in e[4]:
+                v = self.vec(o, depth + 1, at)
+                if not isinstance(v, list):
+                    return "?"
+                out += v
+            return out
+        if k == "index":
+            base, ix = e[1], strip(e[2])
+            if base[0] in ("call", "callat") and _name(base) == "to_le_bytes" and ix[0] == "const":
+                v = self.vec(_args(base)[0], depth + 1, at)
+                if isinstance(v, list) and ix[1] < len(v):
+                    return [v[ix[1]]]
+            return "?"
+        if k not in ("callat", "call"):
+            return "?"
+        n, a, cg = _name(e), _args(e), _cargs(e)
+        if k == "callat" and (e[1], n) in self.site_tags:
+            return self.site_tags[(e[1], n)]
+        here = (e[1], "term") if k == "callat" else at
+        V = lambda x: self.vec(x, depth + 1, here)
+        w = 32 if "256" in n else 16
+
+        def union2(A, B):
+            if A is None:
+                return B
+            if B is None:
+                return A
+            if A == "?" or B == "?" or len(A) != len(B):
+                return "?"
+            return [x | y for x, y in zip(A, B)]
+        if re.match(r"^_mm(256)?_add_epi(32|64)$", n):
+            return union2(V(a[0]), V(a[1]))
+        if re.match(r"^_mm(256)?_(setzero_si\d+|set1_epi\w+|set_epi\w+)$", n):
+            return [E] * w
+        if re.match(r"^_mm(256)?_s(ra|rl|ll)i_epi(16|32|64)$", n):
+            return V(a[0])
+        m = re.match(r"^_mm(256)?_pack(us|s)_epi(16|32)$", n)
+        if m:
+            A, B = V(a[0]), V(a[1])
+            if not isinstance(A, list) or not isinstance(B, list) or len(A) != len(B):
+                return "?"
+            fb = int(m.group(3)) // 8
+            out = []
+            for h in range(0, len(A), 16):
+                for src in (A, B):
+                    for L in range(h, h + 16, fb):
+                        out += [frozenset().union(*src[L:L + fb])] * (fb // 2)
+            return out
+        if re.match(r"^_mm256_extract[if]128_si256$", n) and cg:
+            A = V(a[0])
+            return A[16 * cg[0]:16 * cg[0] + 16] if isinstance(A, list) else A
+        if n == "_mm256_castsi256_si128":
+            A = V(a[0])
+            return A[:16] if isinstance(A, list) else A
+        if re.match(r"^_mm(256)?_hadd_epi32$", n):
+            A, B = V(a[0]), V(a[1])
+            if not isinstance(A, list) or not isinstance(B, list) or len(A) != len(B):
+                return "?"
+            out = []
+            for h in range(0, len(A), 16):
+                for src in (A, B):
+                    for L in (h, h + 8):
+                        u = frozenset().union(*src[L:L + 8])
+                        out += [u] * 4
+            return out
+        if re.match(r"^_mm(256)?_shuffle_epi32$", n) and cg:
+            A = V(a[0])
+            if not isinstance(A, list):
+                return A
+            out = []
+            for h in range(0, len(A), 16):
+                for i in range(4):
+                    s_ = (cg[0] >> (2 * i)) & 3
+                    out += A[h + 4 * s_: h + 4 * s_ + 4]
+            return out
+        m = re.match(r"^_mm(256)?_unpack(lo|hi)_epi(32|64)$", n)
+        if m:
+            A, B = V(a[0]), V(a[1])
+            if not isinstance(A, list) or not isinstance(B, list) or len(A) != len(B):
+                return "?"
+            g = int(m.group(3)) // 8
+            out = []
+            for h in range(0, len(A), 16):
+                base = h + (0 if m.group(2) == "lo" else 8)
+                for i in range(0, 8, g):
+                    out += A[base + i: base + i + g] + B[base + i: base + i + g]
+            return out
+        if n == "_mm_cvtsi128_si32":
+            A = V(a[0])
+            return A[:4] if isinstance(A, list) else A
+        if n == "_mm_extract_epi64" and cg:
+            A = V(a[0])
+            return A[8 * cg[0]: 8 * cg[0] + 8] if isinstance(A, list) else A
+        if n == "_mm_extract_epi32" and cg:
+            A = V(a[0])
+            return A[4 * cg[0]: 4 * cg[0] + 4] if isinstance(A, list) else A
+        if n in ("saturating_add", "wrapping_add") and len(a) == 2:
+            A, B = V(a[0]), V(a[1])
+            if isinstance(A, list) and isinstance(B, list):
+                u = frozenset().union(*A, *B)
+                return [u] * max(len(A), len(B))
+            return "?"
+        if n == "clip" and len(a) == 2:
+            A = V(a[1])
+            if isinstance(A, list):
+                return [frozenset().union(*A)] * (1 if self.cs == 1 else 2)
+            return "?"
+        if n in ("transmute", "clone", "into", "from"):
+            return V(a[0]) if a else "?"
+        return "?"
+
+
+def stores(rep, prog, rule):
+    rep.rule(rule, "in the x86 horizontal kernels byte b of the pixel stored for destination row i "
+             "is accumulated from products of source row i, component b // component_size only: the "
+             "(row, component) tags of the multiply lanes (from the pairing analysis) are followed "
+             "through the accumulator additions, shifts, packs, 128-bit extracts, horizontal adds, "
+             "64-bit extractions and clip calls to the store; a component or a row that ends up in "
+             "the wrong place is a violation, a store that is not followed is undecided")
+    n = und = 0
+    for f in sorted(prog.fns.values(), key=lambda x: x.id):
+        m = re.match(r"^convolution::(u8|u16)x(\d)::(sse4|avx2)::horiz_convolution", f.name)
+        if not m or f.kind == "closure":
+            continue
+        cs = 1 if m.group(1) == "u8" else 2
+        ncomp = int(m.group(2))
+        ps = cs * ncomp
+        ks = 2 if m.group(1) == "u8" else 4
+        sites = [c for c in f.calls() if MULS.match(c.method or short(c.name)) and len(c.args) == 2]
+        if not sites:
+            continue
+        lp = LanePair(prog, f, ps, cs, ks)
+        site_tags = {}
+        ok_sites = True
+        for c in sites:
+            nm = c.method or short(c.name)
+            ea = lp.sym.operand(c.args[0], (c.bb, "term"))
+            eb = lp.sym.operand(c.args[1], (c.bb, "term"))
+            if _range_vars(lp.sym, ea) or _range_vars(lp.sym, eb):
+                ok_sites = False
+                continue
+            A, B = lp.vec(ea), lp.vec(eb)
+            if A is None or B is None or len(A) != len(B):
+                ok_sites = False
+                continue
+            lanes = lp.multiply(nm, A, B)
+            if any(isinstance(l, tuple) for l in lanes):
+                ok_sites = False
+                continue
+            lb = 4 if "madd" in nm else 8
+            out = []
+            for terms in lanes:
+                out += [frozenset((row, (off % ps) // cs) for (row, off, base, j, nb) in terms)] * lb
+            site_tags[(c.bb, nm)] = out
+        tf = TagFlow(f, lp.sym, site_tags)
+        tf.cs = cs
+        ptrs = {}
+        for c in f.calls():
+            if "get_unchecked_mut" in c.name and c.dest:
+                ptrs[c.dest[0]] = fmt(strip(lp.sym.operand(c.args[0], (c.bb, "term"))))
+        for b, blk in enumerate(f.blocks):
+            if blk["c"]:
+                continue
+            for j, st in enumerate(blk["s"]):
+                if not (st[0] == "a" and st[1] and st[1][0] in ptrs and "*" in st[1][1:]):
+                    continue
+                dst = ptrs[st[1][0]]
+                if "dst_row" not in dst:
+                    continue
+                n += 1
+                rep.touch(f)
+                key = "%s|store->%s" % (f.name, dst[:40])
+                v = tf.vec(lp.sym.rvalue(st[2], b, (b, j)), 0, (b, j)) if ok_sites else "?"
+                if not isinstance(v, list) or len(v) < ps:
+                    und += 1
+                    rep.unk(rule, key, st[3], "the stored value is not followed to the accumulators")
+                    continue
+                want_row = dst.replace("dst_row", "src_row")
+                bad = None
+                for bi in range(ps):
+                    tags = v[bi]
+                    comp = bi // cs
+                    if not tags:
+                        bad = "byte %d of the stored pixel receives no product" % bi
+                    for (row, c_) in tags:
+                        if c_ != comp:
+                            bad = "byte %d (component %d) of the stored pixel is accumulated from " \
+                                  "component %d of the source" % (bi, comp, c_)
+                        elif row != want_row:
+                            bad = "the pixel stored into %s is accumulated from %s" % (dst, row)
+                if bad:
+                    rep.bad(rule, key + "|misplaced", st[3], "%s: %s" % (f.name, bad))
+                else:
+                    rep.ok(rule, key, st[3], "%d bytes from %s, components in order" % (ps, want_row))
+    rep.floor(rule, "pixel stores of the horizontal x86 kernels", n, 20)
+    rep.note("%s: %d of %d stores are followed to the accumulators" % (rule, n - und, n))
